@@ -105,7 +105,12 @@ def tagged_object_below_unknown_key(draw, spec, t):
     # dashed spelling: after dashes_to_unders_in_keys both collide)
     present = [k[1] for k, _ in mp[1] if k[0] == 's']
     names = ['zz_extra', 'Key', 'another-key'] + present + [k.replace('_', '-') for k in present if '_' in k]
-    mp[1].insert(draw(st.integers(0, len(mp[1]))), [T.S(draw(st.sampled_from(names))), sub])
+    if draw(st.integers(0, 3)) == 0:
+        # the tagged object (or a list holding it) is itself the key of a pair
+        pair = [sub, T.S('v')]
+    else:
+        pair = [T.S(draw(st.sampled_from(names))), sub]
+    mp[1].insert(draw(st.integers(0, len(mp[1]))), pair)
     return T.set_at(t, p, mp)
 
 
